@@ -413,8 +413,8 @@ def run(tier, seed):
     res = Result("C01", tier, seed)
     work = Work("C01")
     try:
-        ok, blog = coq_build(["props/C01.vo", "corr/C01corr.vo", "corr/C09corr.vo"])
-        proofs_ok, pa = proof_obligations(work, res, "C01.v", ok, blog)
+        ok, blog = coq_build(["props/C01.vo", "props/C01restore.vo", "corr/C01corr.vo", "corr/C09corr.vo"])
+        proofs_ok, pa = proof_obligations_multi(work, res, ["C01.v", "C01restore.v"], ok, blog)
         gate = coq_gate()
         if gate:
             proofs_ok = False
